@@ -24,7 +24,8 @@ META = {"C04": {
     "rule": ("one run = one seeded acyclic graph (8 shapes, adversarial ids, 1..12 statements quick / "
              "1..40 thorough) driven for 1..4 steps through the real ExecutionController in one of "
              "three modes (direct, interpreter.run_single_step, interpreter.run) with a simulated "
-             "target; every dependency-set/sink iteration order, guard value, dynamic request and "
+             "target, or (every 5th run) a seeded builder program on the real interpreter with real guards "
+             "and a guard-faithfulness check; every dependency-set/sink iteration order, guard value, dynamic request and "
              "cut-off is drawn from the tape. distinct = (graph edges, full callback history) hash; "
              "non-trivial = graph has >=1 edge and >=2 statements were visited"),
     "real": ["dagrt.language.ExecutionController", "dagrt.language.ExecutionPhase.depends_on/id_to_stmt",
@@ -35,7 +36,7 @@ META = {"C04": {
     "assumptions": ["graphs are acyclic and dependency-closed (well-formed phases only)",
                     "the controller is reset at the start of each step, as the interpreter does"],
     "probes": ["request_executed", "request_planned", "request_new", "cutoff_then_step",
-               "guard_false_with_dependents", "nested_request"],
+               "guard_false_with_dependents", "nested_request", "real_guard_false"],
 }}
 
 
@@ -257,9 +258,144 @@ def make_sim_interp(code, mon):
     return SimInterp(code, {})
 
 
+def guard_value(cond, store):
+    """Independent evaluation of a builder-made guard (flag / not flag / conjunction)."""
+    from pymbolic.primitives import LogicalAnd, LogicalNot, Variable
+    if cond is True or cond is False:
+        return cond
+    if isinstance(cond, Variable):
+        if cond.name not in store:
+            raise KeyError(cond.name)
+        return bool(store[cond.name])
+    if isinstance(cond, LogicalNot):
+        return not guard_value(cond.child, store)
+    if isinstance(cond, LogicalAnd):
+        return all(guard_value(c, store) for c in cond.children)
+    raise KeyError("unsupported")
+
+
+def run_c04_real(ctx):
+    """Real evaluation mode: builder programs on the real NumpyInterpreter (real guards, real
+    exec_*), simulator-owned iteration orders; V1-V3 plus guard faithfulness."""
+    import numpy as np
+    import warnings
+    from simdag.gen.script import ScriptGen, apply_script
+    from simdag.gen.script import ERRORS
+    warnings.filterwarnings("ignore")
+    np.seterr(all="ignore")
+    tape = ctx.tape
+    gen = ScriptGen(tape, max_ops=[4, 8, 12][tape.draw(3, "max_ops")], max_phases=3, max_depth=2)
+    sc = gen.gen()
+    try:
+        ap = apply_script(sc)
+    except Exception:
+        from simdag.core.outcome import Discard
+        raise Discard("builder-exception")
+    chooser = TapeChooser(tape, ctx.log, counter=lambda site: ctx.count("fault:perm_" + site.split(":")[0]))
+    phases = {}
+    info = {}
+    for ph in sc.phases:
+        stmts = [st.copy() for st in ap.builders[ph.name].statements]
+        for st in stmts:
+            st.depends_on = OrdFS(st.depends_on, chooser, "deps:" + st.id)
+        storage = [stmts[i] for i in tape.perm(len(stmts), "storage")]
+        phases[ph.name] = SimPhase(ph.name, ph.next_phase, storage, chooser)
+        info[ph.name] = {st.id: set(st.depends_on) for st in stmts}
+    code = DAGCode(phases, sc.initial)
+    state = {"visited": [], "pending": None, "phase": None, "cut": False}
+    ctx.decoded["script"] = sc.text(ap.nm)
+    ctx.decoded["mode"] = "real"
+
+    def viol(cls, detail):
+        raise Violation(cls, "phase %s: %s" % (state["phase"], detail), "real")
+
+    class LogInterp(NumpyInterpreter):
+        def evaluate_condition(self, stmt):
+            if state["pending"] is not None:
+                viol("exec-skipped", "guard of %r was true but exec was not called" % state["pending"])
+            if stmt.id in state["visited"]:
+                viol("visited-twice", "%r visited twice in one step (visits so far %r)" % (stmt.id, state["visited"]))
+            unmet = sorted(d for d in info[state["phase"]][stmt.id] if d not in state["visited"])
+            if unmet:
+                viol("dep-not-visited", "%r visited before its dependencies %r (visits so far %r)"
+                     % (stmt.id, unmet, state["visited"]))
+            state["visited"].append(stmt.id)
+            got = NumpyInterpreter.evaluate_condition(self, stmt)
+            try:
+                want = guard_value(stmt.condition, self.context)
+            except KeyError:
+                want = None
+            if want is not None and bool(got) != want:
+                viol("guard-unfaithful", "evaluate_condition(%r) returned %r but its guard %s is %r in the "
+                     "current store" % (stmt.id, got, stmt.condition, want))
+            if not got:
+                ctx.count("probe:real_guard_false")
+            else:
+                state["pending"] = stmt.id
+            return got
+
+    def mk(name):
+        real = getattr(NumpyInterpreter, name)
+
+        def wrapped(self, stmt):
+            if state["pending"] != stmt.id:
+                viol("exec-after-false-guard", "%s(%r) called without a true guard evaluation immediately before"
+                     % (name, stmt.id))
+            state["pending"] = None
+            return real(self, stmt)
+        return wrapped
+    for k in KINDS:
+        setattr(LogInterp, "exec_" + k, mk("exec_" + k))
+
+    it = LogInterp(code, {fn: sc.func_impl(fn) for fn in sc.funcs})
+    it.set_up(sc.t0, sc.dt0, {k: (v.copy() if isinstance(v, np.ndarray) else v) for k, v in sc.state0.items()})
+    n_steps = 1 + tape.draw(6, "steps")
+    outcomes = []
+    max_visits = 0
+    for step in range(n_steps):
+        state.update(visited=[], pending=None, phase=it.next_phase)
+        cur = it.next_phase
+        out = "completed"
+        try:
+            for _ev in it.run_single_step():
+                pass
+        except FailStepException:
+            out = "failed"
+        except TransitionEvent as e:
+            it.next_phase = e.next_phase
+            out = "switched"
+        except Violation:
+            raise
+        except Exception as e:
+            if type(e) in ERRORS.values():
+                out = "raised"
+            else:
+                from simdag.core.outcome import Discard
+                raise Discard("ill-defined:interpreter-raises:" + type(e).__name__)
+        outcomes.append(out)
+        max_visits = max(max_visits, len(state["visited"]))
+        if out == "completed":
+            missing = sorted(set(info[cur]) - set(state["visited"]))
+            if missing:
+                viol("not-visited", "step ended without visiting %r (visited %r)" % (missing, state["visited"]))
+            if state["pending"] is not None:
+                viol("exec-skipped", "guard of %r was true but exec was never called" % state["pending"])
+        else:
+            ctx.count("probe:cutoff_then_step")
+            ctx.count("fault:cutoff_" + out)
+    ctx.count("mode:real")
+    ctx.count("sum:steps", n_steps)
+    ctx.nontrivial = max_visits >= 2
+    ctx.dkey("real", sc.shape_sig, outcomes)
+    ctx.sample = {"mode": "real", "script": ctx.decoded["script"][:10], "step_outcomes": outcomes}
+
+
 def run_c04(ctx):
     tape = ctx.tape
     max_n = 40 if ctx.thorough else 12
+    with tape.span("engine_mode"):
+        if tape.chance(0.2, "real"):
+            return run_c04_real(ctx)
     with tape.span("knobs"):
         mode = ["direct", "wired_single", "wired_run"][tape.weighted([2, 1, 1], "mode")]
         p_request = [0.0, 0.1, 0.3][tape.draw(3, "p_request")]
